@@ -315,7 +315,7 @@ class Ctx:
                 except Exception as e:  # noqa
                     msg = f"compare raised {type(e).__name__}: {e}\n{traceback.format_exc(limit=3)}"
             if msg is not None:
-                self.corr_failures.append({'fn': fn, 'request': request if len(request) < 4000 else request[:4000] + '…',
+                self.corr_failures.append({'fn': fn, 'request': request if len(request) < 400 else request[:400] + '…',
                                            'message': msg, 'inputs': jsonable(inputs)})
 
     def gap(self, fn, relgap):
